@@ -5,7 +5,7 @@ import ast
 from ..core import AnalysisError, unparse, where
 from ..cfg import forward_worlds, path_str, _walk_no_nested
 from ..fold import Folder, UNKNOWN, EnumMember
-from ..seq import (check_rdisc, cond_edge_transfer, kill_conds_on_assign,
+from ..seq import (check_rdisc, cond_edge_transfer, kill_conds_on_assign, assigned_names,
                    _is_attr_chain)
 from ..memseq import (LOC, WEN_KEEP, selectors, label, const_arg,
                       method_cfg)
@@ -387,17 +387,54 @@ def _guard_text(n):
 
 
 def _nearest_yield(node, ynode, sel):
-    seen, stack = set(), [p for (l, p) in node.pred]
+    """Label of the command whose answer a test looks at: the nearest yield
+    on the feasible backward paths (a path that takes one test both ways is
+    not feasible: `if f: A else: B` followed by `if not f:` reaches the
+    second body from B only)."""
+    import re
+    from ..seq import norm_test
     found = set()
+    seen = set()
+    stack = [(p, l, node, frozenset()) for (l, p) in node.pred]
+    steps = 0
     while stack:
-        n = stack.pop()
-        if n.id in seen:
+        n, lab, succ, facts = stack.pop()
+        steps += 1
+        if steps > 20000:
+            return None
+        if n.kind == "test" and lab in ("T", "F"):
+            txt, pol = norm_test(n.ast)
+            val = pol if lab == "T" else not pol
+            if (txt, not val) in facts:
+                continue            # contradicts a later test
+            facts = facts | {(txt, val)}
+        if n.kind == "stmt" and isinstance(n.ast, (ast.Assign,
+                                                   ast.AugAssign)):
+            names = assigned_names(n.ast)
+            facts = frozenset(f for f in facts if not any(
+                re.search(r"(?<![A-Za-z0-9_.])%s(?![A-Za-z0-9_])" % re.escape(
+                    nm), f[0]) for nm in names))
+        if (n.id, facts) in seen:
             continue
-        seen.add(n.id)
+        seen.add((n.id, facts))
         if n.id in ynode:
-            found.add(label(ynode[n.id], sel))
+            # the branch the command itself sits in must agree as well
+            cur, feasible = n, True
+            while len(cur.pred) == 1 and feasible:
+                (l2, p2) = cur.pred[0]
+                if p2.kind == "test" and l2 in ("T", "F"):
+                    txt, pol = norm_test(p2.ast)
+                    val = pol if l2 == "T" else not pol
+                    if (txt, not val) in facts:
+                        feasible = False
+                elif p2.kind == "stmt" and isinstance(
+                        p2.ast, (ast.Assign, ast.AugAssign)):
+                    break
+                cur = p2
+            if feasible:
+                found.add(label(ynode[n.id], sel))
             continue
-        stack += [p for (l, p) in n.pred]
+        stack += [(p, l, n, facts) for (l, p) in n.pred]
     return found.pop() if len(found) == 1 else None
 
 
